@@ -210,6 +210,11 @@ def plan(tier, seed):
     ranges = sweep_ranges(tier)
     specs = [{"mode": "sweep", "ranges": ranges[i::16]} for i in range(16)]
     specs.append({"mode": "rejected"})
+    specs += [{"mode": "u-field", "part": i, "parts": 8} for i in range(8)]
+    from vlib.runner import INTERPRETERS
+    for name in INTERPRETERS:
+        specs.append({"mode": "sweep", "ranges": [(0, 0x180), (0xD7F0, 0xD810), (0x1F600, 0x1F604)], "interp": name})
+        specs.append({"mode": "rejected", "interp": name})
     nh, per = (8, 400) if tier == "quick" else (16, 20000)
     specs += [{"mode": "hyp", "n": per} for _ in range(nh)]
     return specs
@@ -239,6 +244,33 @@ def run_shard(spec, shard):
                                                               "styles x both positions; every lone surrogate escape")
         else:
             shard.exhaustive["single-code-point-literals-quick"] = "U+0000-U+07FF, all surrogates' neighbours, edges, stride 0x0D3B"
+        return
+    if spec["mode"] == "u-field":
+        # every four-character field after "\\u" over an alphabet of hex digits and of characters that number parsers
+        # elsewhere tolerate (blanks, signs, underscore, radix prefix, non-ASCII digits): valid iff four HEXDIG
+        import itertools
+        alpha = ["0", "4", "A", "f", " ", "\t", "+", "_", "x", "\n"] if tier == "quick" else \
+                ["0", "1", "4", "9", "A", "f", "D", " ", "\t", "\n", "\r", "+", "-", "_", "x", "\u0664", "\uff21", "g", "\x0c", "\u00a0"]
+        hexd = set("0123456789abcdefABCDEF")
+        fields = ["".join(t) for t in itertools.product(alpha, repeat=4)][spec["part"]::spec["parts"]]
+        for fld in fields:
+            ok = all(c in hexd for c in fld)
+            cp = int(fld, 16) if ok else None
+            if ok and 0xD800 <= cp <= 0xDFFF:
+                continue
+            for quote in "'\"":
+                for pos in (("name",) if tier == "quick" else ("name", "cmp")):
+                    case = {"lit": quote + "\\u" + fld + quote, "decoded": chr(cp) if ok else None, "pos": pos,
+                            "spelling": "u-field", "class": "u-field"}
+                    shard.evaluations += 1
+                    shard.nontrivial_by_construction += 1
+                    shard.classes["u-field:" + ("four-hexdig" if ok else "not-four-hexdig")] += 1
+                    f = examine(case)
+                    if f:
+                        shard.fail(f["bucket"], case, f, size=6)
+        if len(shard.samples) < 2:
+            shard.samples.append({"u-field-examples": ["'\\u" + f + "'" for f in fields[:6]]})
+        shard.exhaustive["u-escape-fields"] = f"all {len(alpha)}^4 four-character fields over the alphabet {alpha!r} after \\u, both quote styles"
         return
     if spec["mode"] == "rejected":
         for lit, kind in rejected_forms():
